@@ -253,7 +253,12 @@ class HTTP1Connection(httputil.HTTPConnection):
                         )
                     # TODO: client delegates will get headers_received twice
                     # in the case of a 100-continue.  Document or change?
-                    await self._read_message(delegate)
+                    #
+                    # The nested call reads the final response and finishes (or
+                    # fails) the delegate; there is nothing left to read here.
+                    ret = await self._read_message(delegate)
+                    need_delegate_close = False
+                    return ret
             else:
                 if headers.get("Expect") == "100-continue" and not self._write_finished:
                     self.stream.write(b"HTTP/1.1 100 (Continue)\r\n\r\n")
